@@ -24,6 +24,7 @@
  */
 #include "config.h"
 #include "vdrv.h"
+#include <sys/resource.h>
 #include <setjmp.h>
 #include <sys/prctl.h>
 #include <sys/syscall.h>
@@ -989,6 +990,15 @@ cache_seq_case(void *unused)
 	char why[400], sig[VD_SIGLEN];
 
 	(void)unused;
+	{
+		/* a zone that falls out of the 16-slot cache is opened again on its next use; with few descriptors to
+		 * spare a process that forgets to close them is soon refused (--opt nofile=N, 0 = leave the limit) */
+		const long nofile = vd_opt_l("nofile", 24);
+		if (nofile > 0) {
+			struct rlimit rl = {(rlim_t)nofile, (rlim_t)nofile};
+			(void)setrlimit(RLIMIT_NOFILE, &rl);
+		}
+	}
 	for (int a = 0; a < nseq; a++) {
 		int j = seq[a], late;
 		if (!seen[j]) {
